@@ -298,10 +298,36 @@ impl Check for C06 {
             // include cycles
             8 => {
                 class = "cycle";
-                match rng.below(3) {
+                match rng.below(7) {
                     0 => {
                         let name = world.files[0].path.rsplit('/').next().unwrap().to_string();
                         world.files[0].push(Entry::Include(name));
+                    }
+                    // cycles whose every edge is spelled non-canonically
+                    3 => {
+                        world.extra.insert("/w/sub/.keep".to_string(), "keep\n".to_string());
+                        world.files[0].push(Entry::Include(if rng.chance(1, 2) { "sub/../main.ledger" } else { "./main.ledger" }.to_string()));
+                    }
+                    4 | 5 => {
+                        // two sibling directories including each other through `..`, literally or by glob
+                        let glob = rng.chance(1, 2);
+                        let mut a = FileSpec::new("/w/y2024/book.ledger");
+                        a.push(Entry::Include(if glob { "../y2025/*.ledger" } else { "../y2025/book.ledger" }.to_string()));
+                        let mut b = FileSpec::new("/w/y2025/book.ledger");
+                        b.push(Entry::Include(if glob { "../y2024/*.ledger" } else { "../y2024/book.ledger" }.to_string()));
+                        world.files.push(a);
+                        world.files.push(b);
+                        world.files[0].push(Entry::Include("y2024/book.ledger".to_string()));
+                    }
+                    6 => {
+                        // a longer cycle through a sub-directory and back with `../`
+                        let mut a = FileSpec::new("/w/sub/mid.ledger");
+                        a.push(Entry::Include("../sub/./leaf.ledger".to_string()));
+                        let mut b = FileSpec::new("/w/sub/leaf.ledger");
+                        b.push(Entry::Include("../main.ledger".to_string()));
+                        world.files.push(a);
+                        world.files.push(b);
+                        world.files[0].push(Entry::Include("sub/mid.ledger".to_string()));
                     }
                     1 => {
                         let mut f = FileSpec::new("/w/cyc.ledger");
